@@ -3,6 +3,7 @@ package main
 import (
 	"fmt"
 	"go/token"
+	"go/types"
 	"strings"
 
 	"golang.org/x/tools/go/ssa"
@@ -52,6 +53,31 @@ func c01Names(c *Ctx, rule string) {
 		s := sx.Of(st.Val).String()
 		okCut := strings.HasPrefix(s, "conv[string](slice(alloc(") && strings.Contains(s, "call[strings.Index](") && strings.Contains(s, `const("\x00")`)
 		r.Check(okCut, rule, "dhcpv4.FromBytes: "+name+" is the array cut at the first NUL (or whole)", c.P.ipos(st), "symx", name+" is "+s)
+		// without a NUL the whole field is the name: a constant fallback for the cut equals the array length (a name that
+		// fills its field completely is legal on the wire)
+		if cv, ok := st.Val.(*ssa.Convert); ok {
+			if sl, ok := cv.X.(*ssa.Slice); ok && sl.High != nil {
+				if pt, ok := sl.X.Type().Underlying().(*types.Pointer); ok {
+					if at, ok := pt.Elem().Underlying().(*types.Array); ok {
+						okAll := true
+						var walk func(v ssa.Value, d int)
+						walk = func(v ssa.Value, d int) {
+							if ph, ok := v.(*ssa.Phi); ok && d < 4 {
+								for _, e := range ph.Edges {
+									walk(e, d+1)
+								}
+								return
+							}
+							if k, ok := intConst(v); ok && k != at.Len() {
+								okAll = false
+							}
+						}
+						walk(sl.High, 0)
+						r.Check(okAll, rule, "dhcpv4.FromBytes: "+name+" without a NUL is the whole field", c.P.ipos(st), "the constant fallback of the cut equals the array length", fmt.Sprintf("a %s field of %d octets without a zero octet is cut short: the last octets are dropped", name, at.Len()))
+					}
+				}
+			}
+		}
 	})
 	r.Check(n == 2, rule, "dhcpv4.FromBytes: both names decoded", c.P.pos(f.Pos()), "instance count", fmt.Sprintf("%d name stores", n))
 }
